@@ -48,6 +48,14 @@ theorem geoObs_pass : passFrom geoNet 0 geoObs IdxState.init = .ok geoRes := by
     IdxState.init, dX, dY]
   norm_num
 
+theorem geo_sum2 (f : Fin geoRes.idx.maxn → ℝ) : ∑ x, f x = f ⟨0, by decide⟩ + f ⟨1, by decide⟩ :=
+  Fin.sum_univ_two (M := ℝ) f
+
+theorem geo_c01 : codeMatrix geoRes.rows 0 1 = 3 / 5 := by simp [codeMatrix, geoRes, rowSum_cons, rowSum_nil]
+theorem geo_c02 : codeMatrix geoRes.rows 0 2 = 4 / 5 := by simp [codeMatrix, geoRes, rowSum_cons, rowSum_nil]
+theorem geo_c11 : codeMatrix geoRes.rows 1 1 = -3 / 5 := by simp [codeMatrix, geoRes, rowSum_cons, rowSum_nil]
+theorem geo_c12 : codeMatrix geoRes.rows 1 2 = 4 / 5 := by simp [codeMatrix, geoRes, rowSum_cons, rowSum_nil]
+
 /-- the assembled 2×2 matrix has trivial kernel -/
 theorem geo_ker : ∀ g, passMatrix geoRes geoObs.length *ᵥ g = 0 → g = 0 := by
   intro g hg
@@ -55,13 +63,14 @@ theorem geo_ker : ∀ g, passMatrix geoRes geoObs.length *ᵥ g = 0 → g = 0 :=
   have h1 := congrFun hg ⟨1, by simp [geoObs]⟩
   have e0 : (passMatrix geoRes geoObs.length *ᵥ g) ⟨0, by simp [geoObs]⟩ = 3 / 5 * g ⟨0, by decide⟩ + 4 / 5 * g ⟨1, by decide⟩ := by
     simp only [mulVec, dotProduct]
-    rw [show (Finset.univ : Finset (Fin geoRes.idx.maxn)) = (Finset.univ : Finset (Fin 2)) from rfl, Fin.sum_univ_two]
-    simp [passMatrix, codeMatrix, geoRes, rowSum]
+    rw [geo_sum2]
+    show codeMatrix geoRes.rows 0 1 * _ + codeMatrix geoRes.rows 0 2 * _ = _
+    rw [geo_c01, geo_c02]
   have e1 : (passMatrix geoRes geoObs.length *ᵥ g) ⟨1, by simp [geoObs]⟩ = -3 / 5 * g ⟨0, by decide⟩ + 4 / 5 * g ⟨1, by decide⟩ := by
     simp only [mulVec, dotProduct]
-    rw [show (Finset.univ : Finset (Fin geoRes.idx.maxn)) = (Finset.univ : Finset (Fin 2)) from rfl, Fin.sum_univ_two]
-    simp [passMatrix, codeMatrix, geoRes, rowSum]
-    ring
+    rw [geo_sum2]
+    show codeMatrix geoRes.rows 1 1 * _ + codeMatrix geoRes.rows 1 2 * _ = _
+    rw [geo_c11, geo_c12]
   rw [e0] at h0; rw [e1] at h1
   simp only [Pi.zero_apply] at h0 h1
   funext j
